@@ -80,7 +80,11 @@ func wireOrigin(v ssa.Value, seen map[ssa.Value]bool, d int) (src string) {
 			}
 		}
 	case *ssa.Extract:
-		return wireOrigin(x.Tuple, seen, d+1)
+		src := wireOrigin(x.Tuple, seen, d+1)
+		if idx, ok := wireResultIdx[src]; ok && !idx[x.Index] {
+			return ""
+		}
+		return src
 	case *ssa.Call:
 		if b, ok := x.Call.Value.(*ssa.Builtin); ok {
 			if b.Name() == "len" || b.Name() == "cap" || b.Name() == "min" || b.Name() == "max" {
@@ -123,23 +127,226 @@ func wireOrigin(v ssa.Value, seen map[ssa.Value]bool, d int) (src string) {
 	return ""
 }
 
-// upperBounded: some dominating comparison bounds v from above.
-func upperBounded(f *ssa.Function, at ssa.Instruction, v ssa.Value) bool {
-	bp := &boundsProver{fn: f}
-	target := bp.linOf(v, 0)
-	facts := bp.factsAt(at.Block())
-	for _, fc := range facts {
-		// fact: Σ ≥ 0; bounds v above if every atom of target appears with the opposite sign proportionally… simple case: target is a single atom
-		if len(target.t) != 1 {
-			continue
-		}
-		for a, k := range target.t {
-			if kf, ok := fc.t[a]; ok && (kf < 0) == (k > 0) {
-				return true
+// wireResultIdx: for sources with several results, the result indices that
+// carry a value taken from the input (the rest are byte counts and errors).
+var wireResultIdx = map[string]map[int]bool{"compactDecode": {0: true}}
+
+// widenCore strips value-preserving conversions (named-type changes, widening
+// of an unsigned value, widening between signed types).
+func widenCore(v ssa.Value) ssa.Value {
+	for {
+		switch x := v.(type) {
+		case *ssa.ChangeType:
+			v = x.X
+		case *ssa.Convert:
+			if !isIntegerT(x.Type()) || !isIntegerT(x.X.Type()) || intBits(x.Type()) < intBits(x.X.Type()) {
+				return v
 			}
+			if !isUnsignedT(x.X.Type()) && isUnsignedT(x.Type()) {
+				return v
+			}
+			if isUnsignedT(x.X.Type()) && !isUnsignedT(x.Type()) && intBits(x.Type()) == intBits(x.X.Type()) {
+				return v
+			}
+			v = x.X
+		default:
+			return v
+		}
+	}
+}
+
+// sameWireValue: s denotes the same run-time value as core (identical SSA
+// value, or two loads of one local that is written once).
+func sameWireValue(s, core ssa.Value) bool {
+	s = widenCore(s)
+	if s == core {
+		return true
+	}
+	l1, ok1 := s.(*ssa.UnOp)
+	l2, ok2 := core.(*ssa.UnOp)
+	if ok1 && ok2 && l1.Op == token.MUL && l2.Op == token.MUL && l1.X == l2.X {
+		if a, ok := l1.X.(*ssa.Alloc); ok {
+			stores := 0
+			for _, r := range *a.Referrers() {
+				if _, ok := r.(*ssa.Store); ok {
+					stores++
+				}
+			}
+			return stores <= 1
 		}
 	}
 	return false
+}
+
+// boundingOperand: o is a quantity the input cannot choose freely: it does not
+// derive from input bytes, and where a signed value is reinterpreted as
+// unsigned it is provably non-negative (a negative one would wrap to a huge bound).
+func boundingOperand(f *ssa.Function, at *ssa.BasicBlock, o ssa.Value) bool {
+	if wireOrigin(o, map[ssa.Value]bool{}, 0) != "" {
+		return false
+	}
+	for {
+		switch x := o.(type) {
+		case *ssa.ChangeType:
+			o = x.X
+			continue
+		case *ssa.Convert:
+			if isIntegerT(x.X.Type()) && !isUnsignedT(x.X.Type()) && isUnsignedT(x.Type()) {
+				if _, isConst := x.X.(*ssa.Const); isConst {
+					return true
+				}
+				if call, ok := x.X.(*ssa.Call); ok {
+					if b, ok := call.Call.Value.(*ssa.Builtin); ok && (b.Name() == "len" || b.Name() == "cap") {
+						return true
+					}
+					if sc := call.Call.StaticCallee(); sc != nil && (sc.Name() == "Len" || sc.Name() == "Size") {
+						return true
+					}
+				}
+				bp := &boundsProver{fn: f}
+				facts := append(bp.factsAt(at), consumedFacts(bp, x.X)...)
+				return bp.prove(bp.linOf(x.X, 0), facts, 4)
+			}
+			o = x.X
+			continue
+		}
+		return true
+	}
+}
+
+// consumedFacts: for each integer result k of a call g(…, a, …) to a module
+// function that occurs in v, the fact len(a) - result_k >= 0 when g's body
+// establishes it at every return (a parser's "bytes consumed" result never
+// exceeds the slice it parsed).
+func consumedFacts(bp *boundsProver, v ssa.Value) []lin {
+	var out []lin
+	seen := map[ssa.Value]bool{}
+	var walk func(ssa.Value, int)
+	walk = func(v ssa.Value, d int) {
+		if v == nil || seen[v] || d > 8 {
+			return
+		}
+		seen[v] = true
+		switch x := v.(type) {
+		case *ssa.BinOp:
+			walk(x.X, d+1)
+			walk(x.Y, d+1)
+		case *ssa.Convert:
+			walk(x.X, d+1)
+		case *ssa.ChangeType:
+			walk(x.X, d+1)
+		case *ssa.Extract:
+			call, ok := x.Tuple.(*ssa.Call)
+			if !ok || !isIntegerT(x.Type()) {
+				return
+			}
+			g := call.Call.StaticCallee()
+			if g == nil || len(g.Blocks) == 0 || call.Call.IsInvoke() {
+				return
+			}
+			for pi, p := range g.Params {
+				if _, isSlice := p.Type().Underlying().(*types.Slice); !isSlice || pi >= len(call.Call.Args) {
+					continue
+				}
+				if consumedSummary(g, pi, x.Index) {
+					out = append(out, bp.lenOf(call.Call.Args[pi], 0).add(bp.linOf(x, 0), -1))
+				}
+			}
+		}
+	}
+	walk(v, 0)
+	return out
+}
+
+var consumedMemo = map[string]bool{}
+
+func consumedSummary(g *ssa.Function, pi, k int) bool {
+	key := fmt.Sprintf("%s/%d/%d", g.String(), pi, k)
+	if r, ok := consumedMemo[key]; ok {
+		return r
+	}
+	consumedMemo[key] = false
+	ok := true
+	nret := 0
+	allInstrs(g, func(in ssa.Instruction) {
+		r, isR := in.(*ssa.Return)
+		if !isR || !ok {
+			return
+		}
+		nret++
+		if k >= len(r.Results) {
+			ok = false
+			return
+		}
+		bp := &boundsProver{fn: g}
+		goal := bp.lenOf(g.Params[pi], 0).add(bp.linOf(r.Results[k], 0), -1)
+		if !bp.prove(goal, bp.factsAt(r.Block()), 4) {
+			ok = false
+		}
+	})
+	consumedMemo[key] = ok && nret > 0
+	return consumedMemo[key]
+}
+
+// upperBounded: every path to `at` passes a comparison of v itself (not of an
+// arithmetic image of it, which can wrap) against a quantity the input does
+// not choose, on the edge where v is the smaller.
+func upperBounded(f *ssa.Function, at ssa.Instruction, v ssa.Value) bool {
+	core := widenCore(v)
+	var pass []edge
+	for _, b := range f.Blocks {
+		ifi, ok := b.Instrs[len(b.Instrs)-1].(*ssa.If)
+		if !ok {
+			continue
+		}
+		cond, pol := ifi.Cond, true
+		for {
+			if u, ok := cond.(*ssa.UnOp); ok && u.Op == token.NOT {
+				cond, pol = u.X, !pol
+				continue
+			}
+			break
+		}
+		bo, ok := cond.(*ssa.BinOp)
+		if !ok {
+			continue
+		}
+		op, x, y := bo.Op, bo.X, bo.Y
+		if sameWireValue(y, core) && !sameWireValue(x, core) {
+			// mirror: o OP v  ⇒  v OP' o
+			x, y = y, x
+			switch op {
+			case token.LSS:
+				op = token.GTR
+			case token.LEQ:
+				op = token.GEQ
+			case token.GTR:
+				op = token.LSS
+			case token.GEQ:
+				op = token.LEQ
+			}
+		}
+		if !sameWireValue(x, core) || !boundingOperand(f, b, y) {
+			continue
+		}
+		succ := -1
+		switch op {
+		case token.GTR, token.GEQ: // v > o: bounded on the false edge
+			succ = 1
+		case token.LEQ, token.LSS, token.EQL:
+			succ = 0
+		case token.NEQ:
+			succ = 1
+		}
+		if succ < 0 {
+			continue
+		}
+		if !pol {
+			succ = 1 - succ
+		}
+		pass = append(pass, edge{b, succ})
+	}
+	return guardedBy(f, at, pass)
 }
 
 func checkC14(c *Ctx) (string, []string) {
